@@ -64,6 +64,14 @@ def do_import(raw, prop):
         json.dump(meta, open(os.path.join(dst, "meta.json"), "w"), indent=1)
 
 
+def _save(results):
+    os.makedirs(os.path.join(ROOT, "out"), exist_ok=True)
+    p = os.path.join(ROOT, "out", "seeded_results.json")
+    old = json.load(open(p)) if os.path.exists(p) else {}
+    old.update(results)
+    json.dump(old, open(p, "w"), indent=1)
+
+
 def do_run_scratch(names, tier="quick"):
     """like do_run but on a scratch worktree of /repo HEAD (PRAATIO_REPO points the checks at it), so that
     /repo itself stays usable meanwhile"""
@@ -71,9 +79,13 @@ def do_run_scratch(names, tier="quick"):
     sh("git -C %s worktree remove --force %s" % (REPO, wt))
     rc, out = sh("git -C %s worktree add --detach %s HEAD -q" % (REPO, wt))
     assert rc == 0, out
+    # the checks run from a snapshot of /verif, so that /verif can be edited while a long run is in progress
+    snap = "/tmp/wt/verifsnap_%d" % os.getpid()
+    rc, out = sh("mkdir -p %s && rsync -a --delete --exclude out --exclude .git --exclude __pycache__ %s/ %s/" % (snap, ROOT, snap))
+    assert rc == 0, out
     results = {}
     try:
-        for d in sorted(glob.glob(os.path.join(ROOT, "seeded", "*"))):
+        for d in sorted(glob.glob(os.path.join(snap, "seeded", "*"))):
             name = os.path.basename(d)
             if names and name not in names and not any(name.startswith(n) for n in names):
                 continue
@@ -86,15 +98,18 @@ def do_run_scratch(names, tier="quick"):
                 continue
             try:
                 t0 = time.time()
-                env = dict(os.environ, VERIF_EVIDENCE_DIR=os.path.join(ROOT, "out", "evidence_seeded"), PRAATIO_REPO=wt)
-                rc, out = sh("./check %s --tier %s" % (prop, tier), cwd=ROOT, env=env)
+                env = dict(os.environ, VERIF_EVIDENCE_DIR=os.path.join(snap, "out", "evidence_seeded"), PRAATIO_REPO=wt,
+                           VERIF_NO_CACHE="1")
+                rc, out = sh("./check %s --tier %s" % (prop, tier), cwd=snap, env=env)
                 lines = [l for l in out.splitlines() if l.startswith(("VIOLATION", "UNDECIDED", "CHECKER"))]
                 results[name] = {"prop": prop, "rc": rc, "s": round(time.time() - t0, 1), "lines": lines[:6]}
                 print(name, prop, "rc=%d" % rc, "%.0fs" % (time.time() - t0), "|", (lines[0][:230] if lines else out.strip().splitlines()[-1][:200]), flush=True)
+                _save(results)
             finally:
                 sh("git checkout -- .", cwd=wt)
     finally:
         sh("git -C %s worktree remove --force %s" % (REPO, wt))
+        shutil.rmtree(snap, ignore_errors=True)
     p = os.path.join(ROOT, "out", "seeded_results.json")
     old = json.load(open(p)) if os.path.exists(p) else {}
     old.update(results)
